@@ -29,6 +29,65 @@ type manifest struct {
 	Units      []unitResult      `json:"units,omitempty"`      // C12 corpus: one entry per request
 	PkgLabel   map[string]string `json:"pkg_label,omitempty"`  // Go package -> schema label (attribution of compile errors)
 	Violations []violation       `json:"violations,omitempty"` // C12: found while generating
+	Extensions []extInfo         `json:"extensions,omitempty"` // extension fields declared by generated files (C19: E_ variables)
+}
+
+// extInfo names the Go variable protoc-gen-go's rules give an extension field (E_<CamelName>, prefixed with the
+// enclosing message names for nested declarations).
+type extInfo struct {
+	Pkg      string `json:"pkg"`
+	GoName   string `json:"go_name"`
+	FullName string `json:"full_name"`
+}
+
+func goCamel(s string) string {
+	var b []byte
+	up := true
+	for i := 0; i < len(s); i++ {
+		c := s[i]
+		switch {
+		case c == '_':
+			if i+1 < len(s) && s[i+1] >= 'a' && s[i+1] <= 'z' {
+				up = true
+			} else {
+				b = append(b, '_')
+			}
+		case up && c >= 'a' && c <= 'z':
+			b = append(b, c-'a'+'A')
+			up = false
+		default:
+			b = append(b, c)
+			up = false
+		}
+	}
+	return string(b)
+}
+
+func extensionsOf(f *descriptorpb.FileDescriptorProto) []extInfo {
+	pkg := f.GetOptions().GetGoPackage()
+	if i := strings.Index(pkg, ";"); i >= 0 {
+		pkg = pkg[:i]
+	}
+	var out []extInfo
+	prefix := ""
+	if f.GetPackage() != "" {
+		prefix = f.GetPackage() + "."
+	}
+	for _, e := range f.GetExtension() {
+		out = append(out, extInfo{pkg, "E_" + goCamel(e.GetName()), prefix + e.GetName()})
+	}
+	var rec func(ms []*descriptorpb.DescriptorProto, goPrefix, protoPrefix string)
+	rec = func(ms []*descriptorpb.DescriptorProto, goPrefix, protoPrefix string) {
+		for _, m := range ms {
+			gp, pp := goPrefix+goCamel(m.GetName())+"_", protoPrefix+m.GetName()+"."
+			for _, e := range m.GetExtension() {
+				out = append(out, extInfo{pkg, "E_" + gp + goCamel(e.GetName()), pp + e.GetName()})
+			}
+			rec(m.GetNestedType(), gp, pp)
+		}
+	}
+	rec(f.GetMessageType(), "", prefix)
+	return out
 }
 
 type unitResult struct {
@@ -85,6 +144,11 @@ func main() {
 			p := filepath.Join(*out, "req_"+strings.ReplaceAll(f.GetName(), "/", "_")+".binpb")
 			schema.MustWrite(p, b)
 			man.Requests[f.GetName()] = p
+			for _, g := range gen {
+				if g == f.GetName() {
+					man.Extensions = append(man.Extensions, extensionsOf(f)...)
+				}
+			}
 		}
 		for _, gf := range res.Resp.GetFile() {
 			dir, base := filepath.Split(gf.GetName())
@@ -240,6 +304,9 @@ func runCorpus(man *manifest, pkgs map[string]bool, plugin, out string, thorough
 			p := filepath.Join(out, "req_"+strings.ReplaceAll(f.GetName(), "/", "_")+".binpb")
 			schema.MustWrite(p, b)
 			man.Requests[f.GetName()] = p
+			if want[strings.TrimSuffix(f.GetName(), ".proto")+".pulsar.go"] {
+				man.Extensions = append(man.Extensions, extensionsOf(f)...)
+			}
 		}
 		for _, gf := range r.r.Resp.GetFile() {
 			base := filepath.Base(gf.GetName())
